@@ -923,6 +923,17 @@ func c07RunCase(env *c07Env, c *c07Case, rng *rand.Rand) (res c07CaseResult) {
 		all = append(all, n)
 		return n
 	}
+	// a spawn in the set-up can fail only when something else went wrong: the actor
+	// system stopped by itself (known shape, judged) or the parent died (not judged)
+	spawnFailed := func(what string, err error) {
+		if !env.sys.Running() {
+			res.Sig = "system:stopped-while-supervising-user-actors"
+			res.Detail = map[string]any{"spawn_error": err.Error(), "spawning": what, "case": c.Key(), "runtime_warnings_tail": env.logTail()}
+			res.Fatal = true
+			return
+		}
+		res.Inconcl = fmt.Sprintf("set-up: spawn %s failed: %v", what, err)
+	}
 	G := node("G", nil, nil)
 	var err error
 	if G.pid, err = env.sys.Spawn(ctx, G.name, mk("G"), WithLongLived()); err != nil {
@@ -938,7 +949,8 @@ func c07RunCase(env *c07Env, c *c07Case, rng *rand.Rand) (res c07CaseResult) {
 	defer func() { _ = G.pid.Shutdown(ctx) }()
 	P := node("P", G, nil)
 	if P.pid, err = G.pid.SpawnChild(ctx, P.name, mk("P"), WithLongLived()); err != nil {
-		env.t.Fatalf("c07 spawn P: %v", err)
+		spawnFailed("P", err)
+			return
 	}
 	shared := c.ChildCfg.build()
 	var targets []*c07Node
@@ -950,7 +962,8 @@ func c07RunCase(env *c07Env, c *c07Case, rng *rand.Rand) (res c07CaseResult) {
 			opts = append(opts, WithSupervisor(shared))
 		}
 		if n.pid, err = P.pid.SpawnChild(ctx, n.name, mk(label), opts...); err != nil {
-			env.t.Fatalf("c07 spawn child: %v", err)
+			spawnFailed("child", err)
+			return
 		}
 		targets = append(targets, n)
 	}
@@ -961,7 +974,8 @@ func c07RunCase(env *c07Env, c *c07Case, rng *rand.Rand) (res c07CaseResult) {
 			opts = append(opts, WithSupervisor(s))
 		}
 		if n.pid, err = targets[0].pid.SpawnChild(ctx, n.name, mk("GC"), opts...); err != nil {
-			env.t.Fatalf("c07 spawn grandchild: %v", err)
+			spawnFailed("grandchild", err)
+			return
 		}
 		targets = append(targets, n)
 	}
